@@ -127,7 +127,7 @@ def params_canon(obj, names):
         elif callable(v):
             v = getattr(v, "__name__", repr(v))
         else:
-            v = repr(v)
+            v = repr(H.pnorm(v))
         items.append((k, v))
     return (type(obj).__name__, tuple(items))
 
